@@ -5,7 +5,7 @@ R=${1:-/repo}
 OUT=$(mktemp -d /tmp/baseline.XXXXXX)
 unset RDFLIB_PYSHACL_VERIF
 cd "$R" && PYTHONPATH="$R" /venv/bin/python -m pytest -ra -q -p no:cacheprovider --timeout=900 --continue-on-collection-errors --junitxml=$OUT/j.xml >$OUT/log 2>&1
-/venv/bin/python - "$OUT/j.xml" <<'PY'
+/venv/bin/python - "$OUT/j.xml" "$R" <<'PY'
 import json, sys, xml.etree.ElementTree as ET
 base = json.load(open('/root/.vp/BASELINE.json'))
 want = set(base['stable_pass'])
@@ -13,11 +13,14 @@ got = set()
 for tc in ET.parse(sys.argv[1]).getroot().iter('testcase'):
     ok = not any(c.tag in ('failure', 'error', 'skipped') for c in tc)
     if ok:
-        got.add(tc.get('classname') + '::' + tc.get('name'))
+        got.add((tc.get('classname') + '::' + tc.get('name')).replace(sys.argv[2].rstrip('/') + '/', '/repo/'))
 missing = sorted(want - got)
 print(f"baseline: stable_pass={len(want)} passing_now={len(got & want)} missing={len(missing)}")
-for m in missing[:30]:
-    print("  NOT PASSING:", m)
+try:
+    for m in missing[:30]:
+        print("  NOT PASSING:", m)
+except BrokenPipeError:
+    pass
 sys.exit(1 if missing else 0)
 PY
 rc=$?
